@@ -467,7 +467,15 @@ func main() {
 	nFind, nEv := 0, 0
 	bySig := map[string]int{}
 	var fmu sync.Mutex
+	ran := 0
 	for r := 1; r <= *runs; r++ {
+		fmu.Lock()
+		enough := nFind >= 8
+		fmu.Unlock()
+		if enough {
+			break // a tree that fails keeps failing, and every hang costs a time limit
+		}
+		ran = r
 		rec := &recorder{enc: fenc}
 		found := func(sig, detail string) {
 			fmu.Lock()
@@ -485,5 +493,5 @@ func main() {
 		rec.mu.Unlock()
 		fenc.Encode(Event{E: "reset"})
 	}
-	enc.Encode(map[string]any{"summary": map[string]any{"runs": *runs, "calls": *runs * *calls, "events": nEv, "findings": nFind, "by_sig": bySig}})
+	enc.Encode(map[string]any{"summary": map[string]any{"runs": ran, "calls": ran * *calls, "events": nEv, "findings": nFind, "by_sig": bySig}})
 }
